@@ -4,6 +4,9 @@ import json, os
 V = os.path.dirname(os.path.dirname(os.path.abspath(__file__)))
 CLAIMED = {
  # id: (engine, category, technique, level text, level note, design_ref)
+ "C02": ("vsim", "exploration", "deterministic simulation: the whole unmodified engine (real island-solve and narrow-phase tasks, atomic stack reservation) on simulated pool workers under seeded schedules with basic-block preemption; pool-less twin compared bitwise after every call; TSan-in-the-loop race oracle",
+         "Seeded search over (model family, options, pool size 1-8 with mid-history resize, call history, schedule). Sampling, not exhaustive.",
+         "Generous memory; sequentially consistent execution (unsynchronised accesses only through the TSan stage); tactile-sensor dispatch not reached; one recorded race (dense PGS island residual) suppressed by call site.", "3/C02"),
  "C03": ("vsim", "exploration", "deterministic simulation: seeded schedule search (random/sticky/PCT/starvation, basic-block preemption) over the unmodified thread pool, exactly-once/late-task/deadlock/livelock oracles, TSan-in-the-loop race oracle",
          "Seeded search over interleavings of the dispatcher and pool workers at atomic-operation and basic-block granularity, over short create/resize/dispatch/destroy histories; every failure replays from a decision list. Sampling, not exhaustive: the right level for a lock-free protocol whose bugs need specific interleavings.",
          "Sequentially consistent execution (weak-memory mistakes only via the TSan stage); std::atomic/std::thread re-bound by a force-included prelude; engine_thread.cc unmodified.", "3/C03"),
